@@ -108,19 +108,31 @@ func lateRound(cfg LateCfg) (f *fail, inconclusive bool) {
 			g.PeriodicOrTrigger(time.Hour, time.Minute, fn)()
 		}
 	}
-	for _, k := range cfg.Pre {
-		register(k)
-	}
-	switch cfg.First {
-	case "saw":
-		g.StopAndWait()
-	case "stop":
-		g.Stop()
-	case "pcancel":
-		cancelParent()
-	}
-	for _, k := range cfg.Late {
-		register(k)
+	// the calls before the last one: sequential, in a goroutine of their own so that a library in which one of
+	// *them* does not return (not what this pass looks for; the scenarios in the bubble and the stress phases
+	// judge those) leaves the pass inconclusive instead of hanging the run
+	prefix := make(chan struct{})
+	go func() {
+		defer close(prefix)
+		for _, k := range cfg.Pre {
+			register(k)
+		}
+		switch cfg.First {
+		case "saw":
+			g.StopAndWait()
+		case "stop":
+			g.Stop()
+		case "pcancel":
+			cancelParent()
+		}
+		for _, k := range cfg.Late {
+			register(k)
+		}
+	}()
+	select {
+	case <-prefix:
+	case <-time.After(5 * time.Second):
+		return nil, true
 	}
 	if panicMsg != "" {
 		return nil, true // a panicking registration is the business of the scenarios in the bubble
@@ -170,6 +182,9 @@ func lateRegistrationPhase(res *vlib.Result) (reported bool) {
 		res.Count("late-registration-rounds")
 		if inc {
 			res.Count("late-registration-inconclusive")
+			if f == nil {
+				return false // some call does not return in time: the other phases judge that; no further rounds (each would wait again)
+			}
 		}
 		if f != nil {
 			c := cfg
